@@ -450,7 +450,7 @@ def execute(trace: Dict[str, Any], timeout: float = 60.0) -> Dict[str, Any]:
             fault_seen = True
         last_obj = obj
         ref = refs[i]
-        if ref.get("fp") != fp:
+        if not kit.same_outcome(ref.get("fp"), fp):
             violations.append({
                 "oracle": "O1-alone",
                 "op_index": i,
@@ -482,7 +482,7 @@ def execute(trace: Dict[str, Any], timeout: float = 60.0) -> Dict[str, Any]:
         key = kit.digest([op["prog"], op["bindings"]])
         if key in seen:
             stats["probe_repeat_same_bindings"] = stats.get("probe_repeat_same_bindings", 0) + 1
-            if seen[key][1] != rec["fp"]:
+            if not kit.same_outcome(seen[key][1], rec["fp"]):
                 violations.append({"oracle": "O3-repeat", "op_index": i, "op": "V",
                                    "runner": _runner_of(ops, i), "first_index": seen[key][0],
                                    "first": seen[key][1], "history": rec["fp"],
